@@ -104,7 +104,7 @@ HELPER_ORDER = ["Color", "Num", "QEnum", "Child", "Derived", "NsChild", "Other",
 CR_VALUES = ["'x\\ry'", "'\\r\\n'"]
 
 SCALARS: "OrderedDict[str, dict]" = OrderedDict([
-    ("str", dict(ann="str", vals=["'a'", "''", "' a b '", "'a&<>\"\\'b'", "']]>'", "'x\\ty\\nz'", "'\\U0001F600\\u00e9'"])),
+    ("str", dict(ann="str", vals=["'a'", "''", "' a b '", "'a&<>\"\\'b'", "']]>'", "'x\\ty\\nz'", "'\\U0001F600\\u00e9'", "'\\rx\\r\\ry\\r'"])),
     ("int", dict(ann="int", vals=["1", "0", "-1", "2**63"])),
     ("bool", dict(ann="bool", vals=["True", "False"])),
     ("float", dict(ann="float", vals=["1.5", "-0.0", "1e22", "float('inf')", "float('nan')"])),
